@@ -49,8 +49,35 @@ pub fn run(ctx: &mut Ctx) {
                     _ => Crop::Box([0.25, 0.0, c.sw as f64 - 0.5, c.sh as f64]),
                 };
             }
+            let mut special = !ctx_is_miri && (idx / 13) % 64 == 3;
+            if !ctx_is_miri && (idx / 13) % 16 == 5 {
+                // reduction factors k + 0.5 for every k in 1..=640 along one axis, a few destination samples: any rule of the form
+                // "more than N source rows/columns skipped between two samples" changes behaviour somewhere in this list
+                special = true;
+                let k = (idx / 13 / 16) % 640 + 1;
+                let d = *rng.pick(&[3u32, 4, 7, 10]);
+                let s = ((k as f64 + 0.5) * d as f64).round() as u32;
+                let (o_s, o_d) = (rng.range(1, 3) as u32, rng.range(1, 3) as u32);
+                if rng.chance(3, 4) {
+                    (c.sh, c.dh, c.sw, c.dw) = (s, d, o_s, o_d);
+                } else {
+                    (c.sw, c.dw, c.sh, c.dh) = (s, d, o_s, o_d);
+                }
+                c.crop = if rng.chance(1, 3) { Crop::Box([0.0, 0.0, c.sw as f64, c.sh as f64 - 0.5]) } else { Crop::None };
+            }
+            if !ctx_is_miri && (idx / 13) % 32 == 7 {
+                // boxes of almost no extent anywhere inside the image (1e-17 .. 5e-324): every destination pixel is the one pixel under the box
+                special = true;
+                let t = |rng: &mut Rng| *rng.pick(&[1e-17f64, 2.2e-16, 1e-20, 1e-100, 1e-300, 5e-324, 1e-9]);
+                let (l, tp) = ((rng.unit() * c.sw as f64).min(pred(c.sw as f64)), (rng.unit() * c.sh as f64).min(pred(c.sh as f64)));
+                let cw = if rng.chance(2, 3) { t(&mut rng) } else { (c.sw as f64 - l) * rng.unit() };
+                let ch = if rng.chance(2, 3) { t(&mut rng) } else { (c.sh as f64 - tp) * rng.unit() };
+                c.crop = Crop::Box([l, tp, cw, ch]);
+                c.dw = rng.range(1, 9) as u32;
+                c.dh = rng.range(1, 9) as u32;
+            }
             match (idx / 13) % 8 {
-                _ if !ctx_is_miri && (idx / 13) % 64 == 3 => {}
+                _ if special => {}
                 0 => {
                     // sub-pixel crop flush against the right/bottom edge (the D2 geometry)
                     let (w, h) = (c.sw as f64, c.sh as f64);
